@@ -632,7 +632,9 @@ def _run(ck, pool, drv):
         "correspondence streams site-intv and site-dseq on rooted graphs, every level compared) and proved: intervals "
         "total with an order-free partition (intervals_spec, intervals_partition_order_irrelevant); derived_sequence "
         "terminates within sum|all_preds|+1 calls of intervals on every well-formed graph, reducible or not "
-        "(derived_sequence_terminates; interval_graph_fewer_edges, interval_graph_wellformed, intervals_disjoint) and "
+        "(derived_sequence_terminates; interval_graph_fewer_edges, interval_graph_wellformed, intervals_disjoint, "
+        "interval_graph_edges_distinct, derived_sequence_shape; derived_sequence_terminates_any: every graph whose rpo[0] is "
+        "the entry, bound (n+1)n+2) and "
         "reads the numbering and the predecessor-list orders of the first graph only in the insertion order of the "
         "first-level contents (derived_sequence_order_irrelevant); it DOES depend on the insertion order of graph.nodes, "
         "a list (derived_sequence_nodes_order_matters, replayed on the real code). Well-formed = rpo[0] is the entry, "
